@@ -44,7 +44,7 @@ for pid in sorted(props):
         tests = re.findall(r'^func (Test\w+)', demo, re.M)
         pkg = re.search(r'^package (\w+)', demo, re.M).group(1)
         files = re.findall(r'^diff --git a/(\S+)', open(f'{o}/patch{k}.diff').read(), re.M)
-        race = bool(re.search(r'-race`? (is )?\*{0,2}(required|needed)|\*\*`-race` is required|Must be observed under `-race`', notes)) and 'not needed' not in pick('demo')
+        race = bool(re.search(r'(?i)-race`?\*{0,2} (is |IS )?\*{0,2}(required|needed)|MUST be run with `go test -race|must be observed under `-race', notes)) and not re.search(r'(?i)\bno `?-race`?( flag)?( is)? (needed|required)|-race`?( flag)?( is)? not (needed|required|necessary)', notes)
         f1, f2 = d1.get((pid, k), {}), d2.get((pid, k), {})
         meta = {
             'id': sid, 'property': pid, 'property_title': props[pid]['title'], 'round': rnd, 'change': title, 'files_touched': files,
